@@ -425,7 +425,23 @@ func (r *Reader) Resolve(obj core.Object) (core.Object, error) {
 
 // ResolveDeep recursively resolves all indirect references in an object
 // Implements pages.ObjectResolver interface
+//
+// PDF object graphs are cyclic (every page refers back to its /Parent): a reference to an
+// object that is already being expanded further up is left in place as an IndirectRef.
 func (r *Reader) ResolveDeep(obj core.Object) (core.Object, error) {
+	return r.resolveDeep(obj, make(map[int]bool))
+}
+
+// resolveDeep is ResolveDeep with the set of object numbers on the current expansion path.
+func (r *Reader) resolveDeep(obj core.Object, onPath map[int]bool) (core.Object, error) {
+	if ref, ok := obj.(core.IndirectRef); ok {
+		if onPath[ref.Number] {
+			return obj, nil
+		}
+		onPath[ref.Number] = true
+		defer delete(onPath, ref.Number)
+	}
+
 	// First resolve if it's a reference
 	resolved, err := r.Resolve(obj)
 	if err != nil {
@@ -437,7 +453,7 @@ func (r *Reader) ResolveDeep(obj core.Object) (core.Object, error) {
 	case core.Array:
 		result := make(core.Array, len(v))
 		for i, elem := range v {
-			resolvedElem, err := r.ResolveDeep(elem)
+			resolvedElem, err := r.resolveDeep(elem, onPath)
 			if err != nil {
 				return nil, err
 			}
@@ -448,7 +464,7 @@ func (r *Reader) ResolveDeep(obj core.Object) (core.Object, error) {
 	case core.Dict:
 		result := make(core.Dict)
 		for key, val := range v {
-			resolvedVal, err := r.ResolveDeep(val)
+			resolvedVal, err := r.resolveDeep(val, onPath)
 			if err != nil {
 				return nil, err
 			}
